@@ -34,21 +34,26 @@ theorem updateCounters_true_q_factor0 (s : PosPQ) (draw : Nat → Rat) (h0 : s.f
     (PosPQ.updateCounters H s true draw).q = s.q := by
   simp only [PosPQ.updateCounters, if_true]
   split
-  · rw [doMaintenance_factor0 _ _ (by simpa using h0)]
+  · split <;> rw [doMaintenance_factor0 _ _ (by simpa using h0)]
   · rfl
 
 @[simp] theorem updateCounters_factor (s : PosPQ) (b : Bool) (draw : Nat → Rat) :
     (PosPQ.updateCounters H s b draw).factor = s.factor := by
   cases b
   · simp only [PosPQ.updateCounters, Bool.false_eq_true, if_false]; split <;> rfl
-  · simp only [PosPQ.updateCounters, if_true]
-    split
-    · simp only [PosPQ.doMaintenance]
+  · have hd : ∀ s : PosPQ, (PosPQ.doMaintenance H s draw).factor = s.factor := by
+      intro s
+      simp only [PosPQ.doMaintenance]
       split
       · rfl
       · split
         · rfl
         · split <;> rfl
+    simp only [PosPQ.updateCounters, if_true]
+    split
+    · split
+      · exact hd _
+      · exact hd _
     · rfl
 
 theorem PosPQ.RP.popleft (hl : H.Lawful (Entry.lt PV.lt)) {s : PosPQ} {L} (h : PosPQ.RP s L)
